@@ -26,7 +26,7 @@ Ev(name) == l <= N /\ Rec[l].ev = name
 Adv == l' = l + 1
 
 BInit == l = 1 /\ cap = 1 /\ first = 0 /\ hi = 0 /\ handed = 0 /\ firstH = 0 /\ lastH = 0 /\ maxLost = 0
-         /\ closed = FALSE /\ dropEnded = FALSE /\ TLCSet(1, 1)
+         /\ closed = FALSE /\ dropEnded = FALSE /\ TLCSet(1, 1) /\ TLCSet(2, "nothing consumed")
 
 BReset == Ev("Reset") /\ Adv /\ cap' = Rec[l].cap /\ first' = 0 /\ hi' = 0 /\ handed' = 0 /\ firstH' = 0 /\ lastH' = 0
           /\ maxLost' = 0 /\ closed' = FALSE /\ dropEnded' = FALSE
